@@ -92,3 +92,50 @@ def run_ladder_cases(sh, select, stride=1):
             c = w.clean()
             judge(c, 'clean')
     return True
+
+
+UNREP = ['bad\0name', 'd/bad\0dir/x', 'sur\ud800', 'd/sur\ud800dir/x']
+
+
+def run_unrepresentable_cases(sh, select):
+    """a build_file target the OS layer of Python cannot represent (embedded NUL, lone surrogate) next to
+    ordinary work: a foreign file overwritten, a previous output rebuilt; the failing call is caught or
+    propagates (rollback: everything is back, C02/C03); then the next build and clean"""
+    for name in UNREP:
+        for catch in (True, False):
+            for with_prior in (False, True):
+                funcs = {'OK': {'kind': 'bf', 'idx': 5, 'body': [['q', 'read_text', 'in0', 'M'], ['write', 'ok']]}}
+                main = [['bf', 'foreign', 'OK', {'catch': False}], ['bf', 'o/x', 'OK', {'catch': False}],
+                        ['bf', name, 'OK', {'catch': catch}], ['q', 'walk', '', 'M']]
+                prior = [['bf', 'o/x', 'OK', {'catch': False, 'args': [1]}]]
+                program = {'funcs': funcs, 'roots': [main, prior, main[:2] + main[3:]]}
+                with Scratch('U') as sc:
+                    w = World(sc)
+                    w.ext_write('in0', b'input zero')
+                    w.ext_write('foreign', b'a foreign file that the build overwrites')
+                    w.ext_write('keep/foreign', b'unrelated foreign file')
+
+                    def judge(sr, phase):
+                        bad = False
+                        for d in sr.divs:
+                            sh.count('div:' + d['kind'])
+                            if select(d):
+                                sh.violation(signature(d) + '|unrepresentable-target|%s' % phase,
+                                             dict(detail(d), name=repr(name), catch=catch), case_of(w, program))
+                                bad = True
+                        return bad or bool(sr.divs)
+                    if with_prior:
+                        if judge(w.build(program, program['roots'][1], {}, label=1), 'prior'):
+                            continue
+                    sr = w.build(program, program['roots'][0], {}, label=0)
+                    sh.evaluations += 1
+                    sh.count('unrepresentable_target_cases')
+                    account_build(sh, sr)
+                    sh.nt(('unrep', name, catch, with_prior))
+                    if judge(sr, 'main'):
+                        continue
+                    sr2 = w.build(program, program['roots'][2], {}, label=2)
+                    sh.evaluations += 1
+                    if judge(sr2, 'next'):
+                        continue
+                    judge(w.clean(), 'clean')
